@@ -114,7 +114,7 @@ def outcome(fn):
 
 
 def py_amap(amap):
-    return {f"a{a}": f"a{t}" for a, t in amap}
+    return {gridw.aid(a): gridw.aid(t) for a, t in amap}
 
 
 def py_emap(emap):
@@ -177,7 +177,7 @@ class _StubObserver(OBS.ObserverBaseComponent):
         return isinstance(agent, ObservingAgent)
 
     def get_obs(self, agent, **kwargs):
-        a = int(agent.id[1:])
+        a = gridw.aidx(agent.id)
         out = {f"ch{k}": self.oid * 100000 + k * 1000 + a * 100 + (self.clock.t % 50) * 2 + int(agent.active)
                for k in self.keys}
         self.calllog.append(("obs", self, [[k, out[f"ch{k}"]] for k in self.keys]))
@@ -195,7 +195,7 @@ class _StubState(ST.StateBaseComponent):
     def reset(self, **kwargs):
         self.calllog.append(("state", self, None))
         for a, pos, h in self.script:
-            ag = self.agents[f"a{a}"]
+            ag = self.agents[gridw.aid(a)]
             ag.position = np.array(pos)
             ag.health = gridw.fl(h)
 
@@ -226,7 +226,7 @@ class StubSmartSim(SmartGridWorldSimulation):
             for x in deltas:
                 self.rewards[aid] += x
         for a, what, arg in edits:
-            ag = self.agents[f"a{a}"]
+            ag = self.agents[gridw.aid(a)]
             if what == "kill":
                 ag.health = 0
             elif what == "revive":
@@ -357,21 +357,21 @@ class SmartSession:
         elif kind == "step":
             acc = op[1]["acc"]
             try:
-                sim.step({f"a{a}": list(xs) for a, xs in acc}, edits=[tuple(e) for e in op[1]["edits"]])
+                sim.step({gridw.aid(a): list(xs) for a, xs in acc}, edits=[tuple(e) for e in op[1]["edits"]])
                 res = ["unit"]
             except Exception as ex:  # noqa: BLE001
                 res = ["err", err_kind(ex)]
             wop = ["step", [[a, x] for a, xs in acc for x in xs], self.sts()]
         elif kind == "rew":
             try:
-                v = sim.get_reward(f"a{op[1]}")
+                v = sim.get_reward(gridw.aid(op[1]))
                 res = ["int", int(v)] if isinstance(v, (int, np.integer)) and not isinstance(v, bool) else ["err", "other"]
             except Exception as ex:  # noqa: BLE001
                 res = ["err", err_kind(ex)]
             wop = ["rew", op[1]]
         elif kind == "obs":
             try:
-                v = sim.get_obs(f"a{op[1]}")
+                v = sim.get_obs(gridw.aid(op[1]))
                 res = ["obs", [[int(k[2:]), int(x)] for k, x in v.items()]]
                 calls = [self.obs_list.index(c) for _, c, _ in self.calllog]
                 outs = [o for _, _, o in self.calllog]
@@ -379,7 +379,7 @@ class SmartSession:
                 res = ["err", err_kind(ex)]
             wop = ["obs", op[1]]
         elif kind == "done":
-            o = outcome(lambda: sim.get_done(f"a{op[1]}"))
+            o = outcome(lambda: sim.get_done(gridw.aid(op[1])))
             res = ["bool", o[1]] if o[0] == "ok" else o
             wop = ["done", op[1]]
         elif kind == "alldone":
